@@ -132,7 +132,7 @@ class Acl(Engine):
     PACK = 4          # scenarios per case: every case costs one fork of the ASan harness
 
     def gen(self, rng, tier):
-        n = 1600 if tier == 'quick' else 12000
+        n = 1600 if tier == 'quick' else 6000
         packed = []
         for i in range(n):
             packed += self.rt_scenario(rng)
@@ -147,11 +147,14 @@ class Acl(Engine):
         import itertools
         posix = [58, 44, 10, 32, 35, 117, 100, 114, 45, 48, 111]      # : , \n space # u d r - 0 o
         nfs4 = [58, 44, 35, 32, 114, 45]                                  # (tag words are too long to enumerate)
-        for alpha, want, label in ((posix, 0x100, 'posix'), (nfs4, 0x3c00, 'nfs4')):
-            for wide in (False, True):
+        core = [58, 44, 10, 35, 117, 100, 114, 48]                        # length 5 over the 8 most decisive ones
+        for alpha, want, label in ((posix, 0x100, 'posix'), (nfs4, 0x3c00, 'nfs4'), (core, 0x200, 'core')):
+            if alpha is core and tier == 'quick':
+                continue
+            for wide in ((False,) if alpha is core else (False, True)):
                 ops = []
-                maxlen = 3 if tier == 'quick' else (4 if wide else 5)
-                for n in range(0, maxlen + 1 if alpha is posix else maxlen):
+                maxlen = 3 if tier == 'quick' else 4
+                for n in ([5] if alpha is core else range(0, maxlen + 1 if alpha is posix else maxlen)):
                     for t in itertools.product(alpha, repeat=n):
                         if len(ops) == 0 or len(ops) % 400 == 0:
                             ops.append('variant ' + ('w' if wide else 'n'))
@@ -248,7 +251,7 @@ class Acl(Engine):
         return ''.join(t)
 
     def gen_parse(self, rng, tier):
-        n = 3200 if tier == 'quick' else 30000
+        n = 3200 if tier == 'quick' else 16000
         packed = []
         for i in range(n):
             packed += self.parse_scenario(rng)
